@@ -461,9 +461,28 @@ def rule_D3_escape(ctx, typer, clsname, quoted=True):
     esc = cls.lookup("esc")
     if not isinstance(esc, Func):
         raise AnalysisError("anchor %s.esc not found" % clsname)
+    # delegation: `return Other.esc(value)` hands the same value to another class's esc
+    for _ in range(3):
+        body = [s_ for s_ in esc.node.body if not (isinstance(s_, ast.Expr) and isinstance(s_.value, ast.Constant))]
+        if len(body) == 1 and isinstance(body[0], ast.Return) and isinstance(body[0].value, ast.Call):
+            c = body[0].value
+            prm = [a for a in esc.posparams if a != esc.selfname]
+            if isinstance(c.func, ast.Attribute) and c.func.attr == "esc" and isinstance(c.func.value, ast.Name) and len(c.args) == 1 \
+                    and not c.keywords and isinstance(c.args[0], ast.Name) and prm and c.args[0].id == prm[0]:
+                r_ = ctx.p.resolve_name(esc.module, c.func.value.id)
+                other = r_[1] if r_ is not None and r_[0] == "class" else None
+                tgt = other.lookup("esc") if other is not None else None
+                if isinstance(tgt, Func) and tgt is not esc:
+                    ctx.inst("D3", esc, c, "esc delegates to %s" % tgt.qual)
+                    esc = tgt
+                    continue
+        break
     mod = esc.module
     n += 1
-    pat = mod.assigns.get("_RE_ESC")
+    subs0 = [c for c in walk_own(esc.node) if isinstance(c, ast.Call) and isinstance(c.func, ast.Attribute) and c.func.attr in ("sub", "subn")
+             and isinstance(c.func.value, ast.Name)]
+    patname = subs0[0].func.value.id if subs0 else "_RE_ESC"
+    pat = mod.assigns.get(patname)
     ok_pat = False
     if isinstance(pat, ast.Call) and norm(pat.func) == "re.compile" and pat.args and isinstance(pat.args[0], ast.Constant):
         import re._parser as sp
@@ -486,7 +505,7 @@ def rule_D3_escape(ctx, typer, clsname, quoted=True):
     good = False
     from .common import resolve_local
     for c in subs:
-        if norm(c.func.value) == "_RE_ESC" and len(c.args) == 2 and not c.keywords and c.func.attr == "sub":
+        if norm(c.func.value) == patname and len(c.args) == 2 and not c.keywords and c.func.attr == "sub":
             repl = resolve_local(esc, c.args[0])
             if isinstance(repl, ast.Name):
                 r_ = ctx.p.resolve_name(esc.module, repl.id)
@@ -681,10 +700,20 @@ def rule_D5_structure(ctx, typer, clsname, closing=None, writer="to_dotfile"):
     loops = [x for x in walk_own(w.node) if isinstance(x, ast.For) and isinstance(x.iter, ast.Name) and x.iter.id == w.selfname]
     good = False
     for lp in loops:
-        if len(lp.body) == 1 and isinstance(lp.body[0], ast.Expr) and isinstance(lp.body[0].value, ast.Call):
-            c = lp.body[0].value
+        # leading `name = <expr>` steps of the loop body are substituted into the write
+        binds = {}
+        body = list(lp.body)
+        while len(body) > 1 and isinstance(body[0], ast.Assign) and len(body[0].targets) == 1 and isinstance(body[0].targets[0], ast.Name) \
+                and not any(isinstance(x, ast.Call) for x in ast.walk(body[0].value)):
+            binds[body[0].targets[0].id] = body[0].value
+            body = body[1:]
+        if len(body) == 1 and isinstance(body[0], ast.Expr) and isinstance(body[0].value, ast.Call):
+            c = body[0].value
             if isinstance(c.func, ast.Attribute) and c.func.attr == "write" and len(c.args) == 1:
                 a = c.args[0]
+                for _ in range(3):
+                    if isinstance(a, ast.Name) and a.id in binds:
+                        a = binds[a.id]
                 if isinstance(a, ast.BinOp) and isinstance(a.op, ast.Mod) and isinstance(a.left, ast.Constant) and a.left.value == "%s\n" \
                         and isinstance(a.right, ast.Name) and isinstance(lp.target, ast.Name) and a.right.id == lp.target.id:
                     good = True
